@@ -639,10 +639,10 @@ Proof.
       cbn [hr_entries]; rewrite ?del_cl_is_filter.
     + split; [apply filter_filter_imp, not_fr_not_cl|]. split; intros _.
       * apply filter_filter_imp. auto.
-      * intros H. now apply filter_all.
+      * intros H _. now apply filter_all.
     + split; [apply filter_filter_imp, not_fr_not_cl|]. split; intros _.
       * apply filter_filter_imp. auto.
-      * intros H. now apply filter_all.
+      * intros H _. now apply filter_all.
     + assert (Hx : forall f : hentry -> bool, (forall v, f (h_cl_entry v) = false) ->
                 filter f (filter not_cl kept ++ (if cl_sawGood st then [h_cl_entry (cl_value st)] else [])) =
                 filter f (filter not_cl kept)).
@@ -690,7 +690,7 @@ Proof.
   - destruct (ref_field relaxed req g0) as [e|] eqn:Ef; [|discriminate].
     destruct (ref_process relaxed req rest) as [es'|] eqn:Er; [|discriminate].
     destruct Hin as [<-|Hin].
-    + split; [exact Eo|]. right. rewrite Et in *. eauto.
+    + split; [exact Eo|]. right. eauto.
     + exact (IH _ eq_refl g Hin).
 Qed.
 
@@ -787,3 +787,15 @@ Proof.
     unfold h_is_framing in He. cbn [he_id andb] in He.
     destruct (id =? ID_CL) eqn:E1, (id =? ID_TE) eqn:E2; cbn [orb] in He; try discriminate. split; lia.
 Qed.
+
+Theorem rejects_nul relaxed req proh block : In 0 block -> h_parse relaxed req proh block = None.
+Proof.
+  intros H. unfold h_parse, h_block_fields.
+  assert (E : has_nul block = true).
+  { unfold has_nul. apply existsb_exists. exists 0. split; [exact H|reflexivity]. }
+  now rewrite E.
+Qed.
+
+Theorem groups_exact ls :
+  concat (ref_groups ls) = ls /\ Forall group_shape (ref_groups ls) /\ heads_ok (ref_groups ls).
+Proof. split; [apply ref_groups_concat|]. split; apply (ref_groups_shape ls). Qed.
